@@ -172,7 +172,7 @@ STYLES = {
 
 def main(ctx):
     # every lattice part once more under FP traps + warnings-as-errors (clean on the unchanged tree, see DESIGN section 0)
-    ctx.envstrict_all = True
+    ctx.envstrict_all = "small"
     import esutil
     from esutil import sfile
 
